@@ -274,7 +274,38 @@ def tree_tokens(tree):
     return out
 
 
+def gen_bigdoc(rng, cosine=False):
+    """one document with thousands of distinct words, re-indexed many times with one-word edits: every stored
+    weight moves by a tiny amount per edit (seeded C08_G skipped re-storing changes below 1e-6, so the stored
+    cosine weights drifted away from the formula by 0.06% per edit)"""
+    kind = "cosine" if cosine or rng.random() < 0.7 else "okapi"
+    impl = "plain" if kind == "cosine" else rng.choice(["c", "python"])
+    fam = rng.choice([32, 64])
+    n = rng.randrange(6400, 7000)
+    doc = list(range(1000, 1000 + n))
+    cmds = [["index", 1] + doc, ["index", 2, 1000, 5, 5], ["index", 3, 1001, 1002, 5]]
+    tid = [0]
+
+    def ask():
+        for w in rng.sample([1000, 1001, 1500, 2000 + rng.randrange(3000), 5, doc[-1]], 3):
+            tid[0] += 1
+            cmds.append(["lex", "t", tid[0], w])
+            cmds.append(["search", tid[0]])
+    ask()
+    for _ in range(rng.randrange(8, 12)):
+        # mostly a NEW word (every other weight moves by ~1/(2n) of itself), now and then a repeated one
+        doc = doc + [1000 + n + len(doc) if rng.random() < 0.8 else rng.choice([1000, 1001, 1002, 1003])]
+        cmds.append(["reindex", 1] + doc)
+        if rng.random() < 0.3:
+            ask()
+    ask()
+    return {"session": "score", "cfg": [["cfg", "kind", kind], ["cfg", "impl", impl], ["cfg", "fam", fam],
+                                        ["cfg", "mode", "bigdoc"]], "cmds": cmds}
+
+
 def gen(rng, tier, idx):
+    if (idx % 1000003 == 5 and idx // 1000003 < 3) or (tier == "thorough" and idx % 1000003 % 211 == 5):
+        return gen_bigdoc(rng, cosine=(idx // 1000003 == 0))
     kind = "okapi" if rng.random() < 0.6 else "cosine"
     tuned = []
     if kind == "okapi":
